@@ -91,6 +91,10 @@ func (c *CRLRevocationChecker) Cleanup() error {
 	if c.crlUpdateTicker != nil {
 		c.crlUpdateTicker.Stop()
 	}
+	if c.crlUpdateStop != nil {
+		//a stopped ticker never fires again, the update goroutine has to be told to end
+		close(c.crlUpdateStop)
+	}
 	return nil
 }
 func (c *CRLRevocationChecker) addCrlUrlsFromConfig(chains *core.CertificateChains) error {
